@@ -559,6 +559,20 @@ fn sys_run(a: &Args) -> anyhow::Result<String> {
             // the two exports (with expiration: how session shards reach the shard cache; keyed: global dedup)
             let srcdir = tempfile::tempdir().unwrap();
             let src = if seed % 4 >= 2 { s.write_to_directory(srcdir.path()).ok().and_then(|p| MDBShardFile::load_from_file(&p).ok()) } else { None };
+            // (seed % 5 == 4: the shard written is byte-identical to one that is already in the directory)
+            let again: Option<Vec<u8>> = if seed % 5 == 4 {
+                let mut names: Vec<PathBuf> = std::fs::read_dir(&dir).map(|rd| rd.flatten().map(|e| e.path()).filter(|p| parse_shard_filename(p).is_some()).collect()).unwrap_or_default();
+                names.sort();
+                names.first().and_then(|p| std::fs::read(p).ok())
+            } else {
+                None
+            };
+            if let Some(b) = &again {
+                let _ = std::fs::remove_file(MARK_BEGIN);
+                let r = silent(|| MDBShardFile::write_out_from_reader(&dir, &mut Cursor::new(b.clone())).map(|_| ()).map_err(|e| format!("{e:?}")));
+                let _ = std::fs::remove_file(MARK_END);
+                return Ok(json!({"driver": "atomicfs", "mode": "sys_run", "ok": matches!(r, Ok(Ok(()))), "res": format!("{r:?}")}).to_string());
+            }
             let r = silent(|| match (seed % 4, &src) {
                 (0, _) => s.write_to_directory(&dir).map(|_| ()).map_err(|e| format!("{e:?}")),
                 (1, _) => MDBShardFile::write_out_from_reader(&dir, &mut Cursor::new(bytes)).map(|_| ()).map_err(|e| format!("{e:?}")),
